@@ -19,7 +19,13 @@ def search(pid, fn_key, digit, mode, budget_s=600):
     """run the harnesses registered as counter-example finders for fn_key; return the first
     concrete failing input found (as Kani playback tests) or None."""
     g = generic_key(fn_key)
-    cands = [h for h in KANI.load_harnesses() if g in [x.replace(' ', '') for x in h.get('fn_keys', [])] and not h.get('disabled')]
+    allh = [h for h in KANI.load_harnesses() if not h.get('disabled')]
+    cands = [h for h in allh if g in [generic_key(x) for x in h.get('fn_keys', [])]]
+    if not cands:
+        # no harness registered under exactly this key (trait impl methods, helper fns): harnesses of the same
+        # property whose function keys name the same method
+        short = g.split('::')[-1]
+        cands = [h for h in allh if h.get('property') == pid and short in [generic_key(x).split('::')[-1] for x in h.get('fn_keys', [])]]
     cands.sort(key=lambda h: h.get('est_s', 60))
     spent = 0
     for h in cands:
